@@ -361,6 +361,53 @@ fn spaces(thorough: bool) -> Vec<(String, u64, String, Box<dyn Fn(u64, &mut Acc)
         let (fa, fb) = (fields[(r % nfld) as usize], fields[(r / nfld) as usize]);
         case_parse(kind, &format!("{} {}", a, b), &format!("{} {}", fa, fb), acc);
     })));
+    // (j) characters whose Unicode case mapping is (or expands to) ASCII letters, put inside every
+    // month name, weekday name and day-period text in place of the letters they map to
+    let names: Vec<(&'static str, &'static str)> = {
+        let mut v: Vec<(&'static str, &'static str)> = vec![];
+        for n in ["January", "February", "March", "April", "May", "June", "July", "August", "September", "October", "November", "December"] {
+            v.push((n, "MMMM"));
+            v.push((n, "MMMMMM"));
+        }
+        for n in ["Jan", "Feb", "Mar", "Apr", "May", "Jun", "Jul", "Aug", "Sep", "Oct", "Nov", "Dec"] {
+            v.push((n, "MMM"));
+        }
+        for n in ["Sunday", "Monday", "Tuesday", "Wednesday", "Thursday", "Friday", "Saturday"] {
+            v.push((n, "eeee"));
+        }
+        for n in ["Sun", "Mon", "Tue", "Wed", "Thu", "Fri", "Sat"] {
+            v.push((n, "eee"));
+        }
+        for n in ["Su", "Mo", "Tu", "We", "Th", "Fr", "Sa"] {
+            v.push((n, "eeeeee"));
+        }
+        for (n, p) in [("AM", "a"), ("PM", "a"), ("am", "aaa"), ("pm", "aaa"), ("a.m.", "aaaa"), ("p.m.", "aaaa"), ("noon", "b"), ("midnight", "bbbb"), ("AD", "G"), ("BC", "G"), ("Anno Domini", "GGGG"), ("Before Christ", "GGGG")] {
+            v.push((n, p));
+        }
+        v
+    };
+    let rules: [(&str, &str); 14] = [("st", "\u{fb06}"), ("st", "\u{fb05}"), ("ss", "\u{df}"), ("s", "\u{17f}"), ("i", "\u{131}"), ("i", "\u{130}"), ("k", "\u{212a}"), ("fi", "\u{fb01}"), ("fl", "\u{fb02}"), ("ff", "\u{fb00}"), ("a", "\u{e5}"), ("n", "\u{149}"), ("j", "\u{1f0}"), ("h", "\u{1e96}")];
+    let mut alias_inputs: Vec<(String, String)> = vec![];
+    for (name, pat) in &names {
+        let lower = name.to_lowercase();
+        for (from, to) in rules {
+            let mut start = 0;
+            while let Some(pos) = lower[start..].find(from) {
+                let at = start + pos;
+                let text = format!("{}{}{}", &name[..at], to, &name[at + from.len()..]);
+                for (pre_p, pre_t, post_p, post_t) in [("", "", "", ""), ("", "", " d", " 1"), ("d ", "2 ", "", ""), ("HH:mm ", "12:32 ", "", "")] {
+                    alias_inputs.push((format!("{}{}{}", pre_t, text, post_t), format!("{}{}{}", pre_p, pat, post_p)));
+                    alias_inputs.push((format!("{}{}{}", pre_t, text.to_uppercase(), post_t), format!("{}{}{}", pre_p, pat, post_p)));
+                }
+                start = at + from.len();
+            }
+        }
+    }
+    let nai = alias_inputs.len() as u64;
+    v.push((format!("(j) case-mapping aliases inside names: {} (name, pattern) pairs x 14 substitution rules x every occurrence x 4 contexts x {{as is, upper-cased}} x 3 parse functions", names.len()), nai * 3, "long s, dotless / dotted i, Kelvin sign, sharp s and the st / fi / fl / ff ligatures, whose upper- or lower-case forms are ASCII letters (sometimes two)".into(), Box::new(move |i, acc| {
+        let (inp, pat) = &alias_inputs[(i / 3) as usize];
+        case_parse((i % 3) as u8, inp, pat, acc);
+    })));
     // (e) cron
     let nc = count_strings(11, if thorough { 5 } else { 4 });
     let clen = if thorough { 5 } else { 4 };
